@@ -6,7 +6,7 @@ import os
 import sys
 
 sys.path.insert(0, os.environ.get("VERIF_REPO", "/repo"))
-sys.path.insert(0, "/verif")
+sys.path.insert(0, os.path.dirname(os.path.dirname(os.path.abspath(__file__))))
 
 
 def main():
